@@ -74,6 +74,12 @@ func main() {
 	if err := os.MkdirAll(*outDir, 0o755); err != nil {
 		panic(err)
 	}
+	// the repository logs through glog: keep it out of /tmp and off stderr
+	glogDir := filepath.Join(*outDir, "glog")
+	_ = os.MkdirAll(glogDir, 0o755)
+	_ = flag.Set("log_dir", glogDir)
+	_ = flag.Set("stderrthreshold", "FATAL")
+	defer os.RemoveAll(glogDir)
 	fo, err := os.Create(filepath.Join(*outDir, "ops.txt"))
 	if err != nil {
 		panic(err)
